@@ -631,6 +631,8 @@ def _tokenize(readline: Callable[[], str]) -> Iterator[TokenInfo]:
         state.move_next_line(readline)
 
         if state.end_progs:
+            # a backslash-newline inside a replacement field continues the field, not a statement
+            state.continued = False
             yield from handle_end_progs(state)
 
         elif state.parenlev == 0 and not state.continued:  # new statement
